@@ -69,11 +69,25 @@ func run(name string, seedV int64, nV int, tierV, outV, statsV, replayV, modeV s
 			fmt.Println("oracle cases=0 (stream has no oracle)")
 			return
 		}
-		cases, fails := of(rand.New(rand.NewSource(*seed)), *n, *tier, *replay)
-		for _, f := range fails {
-			fmt.Println("ORACLE-FAIL", f)
+		// in slices, so that failures are reported as they are found and a failing implementation (which can make
+		// every case slow: time-outs) does not have to sit through the whole sample
+		r := rand.New(rand.NewSource(*seed))
+		cases, nfails := 0, 0
+		chunk := max(1, (*n+7)/8)
+		for done := 0; done < *n && nfails < 12; done += chunk {
+			in := ""
+			if done == 0 {
+				in = *replay
+			}
+			c, fails := of(r, min(chunk, *n-done), *tier, in)
+			cases += c
+			nfails += len(fails)
+			for _, f := range fails {
+				fmt.Println("ORACLE-FAIL", f)
+			}
+			os.Stdout.Sync()
 		}
-		fmt.Printf("oracle cases=%d fails=%d\n", cases, len(fails))
+		fmt.Printf("oracle cases=%d fails=%d\n", cases, nfails)
 		return
 	}
 	o := hx.NewOut(*out, *seed)
